@@ -16,7 +16,7 @@ from .common import *  # noqa: F401,F403
 HEADER = "From RL Require Import Corr.C20.\nOpen Scope Z_scope.\n"
 BASE = os.path.join(CACHE, "csv")
 CELLS = [None, "", "a", "abc", "a,b", 'say "hi"', "it's", "line\nbreak", "cr\rx", "x|y", "semi;colon", "tab\there", "NULL", "null", " lead", "trail ",
-         '"', '""', ",", "\n", "é√", "a\"b,c\nd", "\\", "back\\slash\"q"]
+         '"', '""', ",", "\n", "é√", "a\"b,c\nd", "\\", "back\\slash\"q", "#hash", "#", "a#b", ";x", "--c", "//", "%"]
 
 
 def sql_str(s):
@@ -99,6 +99,11 @@ def _run(R):
         steps = [{"sql": f"create table t({cols})"}, {"sql": f"create table u({cols})"}]
         if rows:
             steps.append({"sql": "insert into t values " + ", ".join("(" + ", ".join(sql_str(c) for c in r) + ")" for r in rows)})
+        if rng.random() < 0.3:
+            # the target file already exists and is longer (an earlier export of another table)
+            steps += [{"sql": f"create table w({cols})"},
+                      {"sql": "insert into w values " + ", ".join("(" + ", ".join(sql_str("older row " + str(j) * 9) for _ in range(ncol)) + ")" for j in range(nrow + 6))},
+                      {"sql": f"copy w to '{f}'{opt_clause(d, q)}"}]
         steps += [{"sql": f"copy t to '{f}'{opt_clause(d, q)}"}, {"read": f}, {"sql": f"copy u from '{f}'{opt_clause(d, q)}"}, {"sql": "select * from u"}, {"sql": "select * from t"}]
         cases.append({"engine": "mem", "steps": steps, "rows": rows, "d": d, "q": q})
     outs = run_harness("sql", [{"engine": c["engine"], "steps": c["steps"]} for c in cases], jobs=16)
@@ -167,6 +172,19 @@ def _run(R):
                                               {"sql": f"insert into t values ({sql_str(cell)}, 1)"}, {"sql": f"copy t to '{f}'{oc}"},
                                               {"sql": f"copy u from '{f}'{oc}"}, {"sql": "select * from t"}, {"sql": "select * from u"}],
                    "rows": [[cell, 1]], "cols": ["varchar", "int"], "header": None, "escape": "\\", "null": False, "empty": False, "special": "\\" in cell})
+    # directed: COPY (query) TO over a table stored in several batches, with predicates that empty a whole batch
+    for i in range(24 if R.tier == "quick" else 200):
+        f = os.path.join(BASE, f"q{i}.csv")
+        nb_ = rng.randint(2, 4)
+        batches = [[(g, rng.choice(["a", "b,c", "x y", "#k"]), rng.randint(0, 9)) for _ in range(rng.randint(1, 4))] for g in range(nb_)]
+        pred = rng.choice(["g <> 1", "g > 0", f"g = {nb_ - 1}", "g <> 0 and g <> 1", "n >= 0", "g < 1 or g > 1"])
+        steps = [{"sql": "create table t(g int, s varchar, n int)"}, {"sql": "create table u(g int, s varchar, n int)"}]
+        for b in batches:
+            steps.append({"sql": "insert into t values " + ", ".join(f"({g}, {sql_str(sv)}, {n})" for g, sv, n in b)})
+        steps += [{"sql": "select 1"}, {"sql": f"copy (select * from t where {pred}) to '{f}'"}, {"sql": f"copy u from '{f}'"},
+                  {"sql": f"select * from t where {pred}"}, {"sql": "select * from u"}]
+        tc.append({"engine": rng.choice(["mem", "disk"]), "steps": steps, "rows": [], "cols": ["int", "varchar", "int", "query:" + pred], "header": None, "escape": None,
+                   "null": False, "empty": False, "special": False})
     outs = run_harness("sql", [{"engine": c["engine"], "steps": c["steps"]} for c in tc], jobs=16)
     kinds = {}
     for c, o in zip(tc, outs):
@@ -175,17 +193,17 @@ def _run(R):
                  else "KF_C20_escape_asymmetric" if c["escape"] and c["special"] else None)
         for ty in c["cols"]:
             kinds[ty] = kinds.get(ty, 0) + 1
-        if not isinstance(o, list) or len(o) < len(c["steps"]) or "ok" not in o[2]:
+        if not isinstance(o, list) or len(o) < len(c["steps"]) or not all("ok" in x for x in o[:-4]):
             R.property_fails(None, f"C20 the typed script aborted: {json.dumps(o)[-200:]}", rep)
             continue
-        if "ok" not in o[3]:
-            R.property_fails(None, f"C20 {c['steps'][3]['sql'][:60]} failed: {json.dumps(o[3])[:200]}", rep)
+        if "ok" not in o[-4]:
+            R.property_fails(None, f"C20 {c['steps'][-4]['sql'][:60]} failed: {json.dumps(o[-4])[:200]}", rep)
             continue
-        if "ok" not in o[4]:
-            R.property_fails(klass, f"C20 COPY FROM of the exported file failed ({c['cols']}, header {c['header']}, escape {c['escape']!r}): {json.dumps(o[4])[:200]}", rep)
+        if "ok" not in o[-3]:
+            R.property_fails(klass, f"C20 COPY FROM of the exported file failed ({c['cols']}, header {c['header']}, escape {c['escape']!r}): {json.dumps(o[-3])[:200]}", rep)
             continue
-        a = sorted(json.dumps(r) for r in o[5]["ok"][0]["rows"])
-        b = sorted(json.dumps(r) for r in o[6]["ok"][0]["rows"])
+        a = sorted(json.dumps(r) for r in o[-2]["ok"][0]["rows"])
+        b = sorted(json.dumps(r) for r in o[-1]["ok"][0]["rows"])
         if a != b:
             R.property_fails(klass, f"C20 ({c['engine']}) round trip of a table with columns {c['cols']} (header {c['header']}, escape {c['escape']!r}) changes it: "
                                     f"{[x for x in a if x not in b][:2]} -> {[x for x in b if x not in a][:2]}", rep)
